@@ -1,4 +1,4 @@
-import MsqProofs.Lemmas.ParseWNShape
+import MsqProofs.Lemmas.ParseWNSkel
 import MsqProofs.Lemmas.ParseMono
 import MsqModel.Parse.Entry
 import MsqModel.Driver.ShowVal
@@ -24,8 +24,13 @@ one production per precedence level, `left : L`, `right : L - 1` (left associati
 * `C02.parse_deterministic` : the tree and the rest do not depend on the fuel.
 Deviations of the code from the documented table that `Derives` has to admit (each with the Python line) are listed in
 ParseWN0.lean (DEVIATION 1–5); `C02.binary_bang_witness` / `reserved_word_column_witness` are evaluated witnesses on the model.
-What is NOT here: uniqueness of `Derives` (see `derives_not_unique_witness`: the relation over-approximates the parser where a
-reserved word is used as a column name), the SELECT grammar (`SubQ`, `WinSpec` are opaque).
+* `C02.derives_unique_logic`, `derives_unique_compute` (+ `logic_skeleton_exists` / `_derives`, `compute_…`, `parse_unique_over_operands`):
+  uniqueness for the operator layers — once it is fixed which token runs are the operands (level 9 resp. elements), the documented
+  levels leave exactly one tree (`OPG.unique`, MsqProofs/Lemmas/OpGrammar.lean: an operator grammar with prefix and left-associative
+  binary levels over opaque operands is unambiguous).
+What is NOT here: uniqueness of `Derives` as a whole (see `derives_not_unique_witness`: WHICH tokens are elements is not determined
+where an operator sign is read as a column name), the keyword-predicate level in the skeletons, the SELECT grammar (`SubQ`, `WinSpec`
+are opaque).
 -/
 set_option linter.unusedVariables false
 open Lex PM Ast WNG
@@ -155,6 +160,44 @@ theorem parse_shape_not (d : Gen.D) (f : Nat) (ts : List Tok) (e : Expr) (rest :
     ∃ used, ts = used ++ rest ∧ (PR.lvl e ≤ 11 ∨ ∃ g, used = [g] ∧ g.has PAREN = true) := by
   obtain ⟨u, hu, hd⟩ := parse_derives_not d f ts e rest h
   exact ⟨u, hu, by simpa using WNG.derives_shape hd⟩
+
+/-! ### uniqueness for the operator layers: given the operands, the table dictates the tree
+
+`Derives` as a whole is not functional (`derives_not_unique_witness` below: WHICH tokens are elements is not determined where the
+code accepts an operator sign as a column name).  What the precedence table, left associativity and the brackets are
+responsible for is determined: -/
+
+/-- every level-14 derivation has a LOGICAL SKELETON: a segmentation of its tokens into operands of the keyword level (token run +
+tree, each derived at level 9) and OR / XOR / AND / NOT / comparison tokens along which the operator grammar `OPG.G` with the
+documented levels derives the tree (`WNG.SkelL`) — and conversely every skeleton is a derivation -/
+theorem logic_skeleton_exists (d : Gen.D) (L : Nat) (ts : List Tok) (e : Expr) (h : Derives d L ts e) :
+    ∃ items, SkelL d ts e items := skelL_exists h
+theorem logic_skeleton_derives (d : Gen.D) (ts : List Tok) (e : Expr) (items : List It) (h : SkelL d ts e items) :
+    ∃ L, Derives d L ts e := by
+  obtain ⟨L, x, f, g, he, ha⟩ := h
+  exact ⟨max L 9, f ▸ he ▸ derives_of_GL g ha⟩
+/-- **`derives_unique` for the logical layers**: two derivations with the same operands (same items) have the same tree — no
+other nesting of OR / XOR / AND / NOT / comparison operators over these operands is derivable -/
+theorem derives_unique_logic (d : Gen.D) (ts ts' : List Tok) (e e' : Expr) (items : List It)
+    (h : SkelL d ts e items) (h' : SkelL d ts' e' items) : e = e' ∧ ts = ts' := skelL_unique h h'
+
+/-- the same for the COMPUTE layers: operands are elements (level 0), operators the prefix signs and the binary operators of
+levels 2 … 8 -/
+theorem compute_skeleton_exists (d : Gen.D) (L : Nat) (ts : List Tok) (e : Expr) (h : Derives d L ts e) (hL : L ≤ 8) :
+    ∃ items, SkelC d ts e items := skelC_exists h hL
+theorem compute_skeleton_derives (d : Gen.D) (ts : List Tok) (e : Expr) (items : List It) (h : SkelC d ts e items) :
+    ∃ L, Derives d L ts e := by
+  obtain ⟨L, x, f, g, he, ha⟩ := h
+  exact ⟨L, f ▸ he ▸ derives_of_GC g ha⟩
+theorem derives_unique_compute (d : Gen.D) (ts ts' : List Tok) (e e' : Expr) (items : List It)
+    (h : SkelC d ts e items) (h' : SkelC d ts' e' items) : e = e' ∧ ts = ts' := skelC_unique h h'
+
+/-- for the parser: what `pOr` returns is the ONLY tree over the operands of its logical skeleton -/
+theorem parse_unique_over_operands (d : Gen.D) (f : Nat) (ts : List Tok) (e : Expr) (rest : List Tok) (h : pOr d f ts = .ok (e, rest)) :
+    ∃ used items, ts = used ++ rest ∧ SkelL d used e items ∧ ∀ us e', SkelL d us e' items → e' = e := by
+  obtain ⟨u, hu, hd⟩ := parse_derives d f ts e rest h
+  obtain ⟨items, hs⟩ := skelL_exists hd
+  exact ⟨u, items, hu, hs, fun us e' h' => (skelL_unique h' hs).1⟩
 
 /-! ### at text level: the public entry point, lexer included -/
 theorem W02.entry_or : entries.find? (·.1 == "logical_or_level_expression") = some ("logical_or_level_expression", exprEntry pOr) := by
